@@ -792,6 +792,17 @@ def execute(trace, ctx=None):
                     continue
                 o = pool[op['obj']]
                 want = inspect.getfullargspec(funcs[o['fid']][0])
+                if k % 2:
+                    # somebody else asks for the parameter names first (public helper), and does what it likes with the answer;
+                    # the specification reported afterwards - and every later call - must not notice
+                    from pyg_base import getargs
+                    try:
+                        names_ = getargs(o['real'], k % 3)
+                        if isinstance(names_, list):
+                            names_.clear()
+                    except Exception:
+                        pass
+                    res.probe('names-asked-before-spec')
                 try:
                     got = getargspec(o['real'])
                 except Exception as e:
